@@ -209,6 +209,75 @@ def check_meta_exact(chk, files, cs, full):
             describes(meta, fname, "snapshot")
 
 
+def z_tree(z):
+    return [1 if z < 0 else 0, abs(z)]
+
+
+def secs_of(text):
+    """RFC 3339 text -> whole seconds since the epoch"""
+    import datetime, re
+    m = re.match(r"(\d{4})-(\d\d)-(\d\d)T(\d\d):(\d\d):(\d\d)(\.\d+)?Z$", text)
+    y, mo, d, h, mi, sec = (int(x) for x in m.groups()[:6])
+    return int(datetime.datetime(y, mo, d, h, mi, sec, tzinfo=datetime.timezone.utc).timestamp())
+
+
+def ed_sign_case(docs, root_id, it, final_keys, files, cs, base, pool_ids):
+    """the case for Model/EditorRT.v ed_sign (run_C10 in Model/Run.v) and the abstraction of the files the
+    editor wrote, in the same tree format; None when the written files cannot be abstracted"""
+    rd = docs[root_id]
+    code = {"root": 0, "snapshot": 1, "targets": 2, "timestamp": 3}
+    FAR = rd["expires"]
+    root_tree = [rd["version"], z_tree(FAR), 1 if rd["cs"] else 0, list(rd["keys"]),
+                 [[code[k], list(v[0]), v[1]] for k, v in sorted(rd["roles"].items(), key=lambda kv: code[kv[0]])],
+                 [list(x) for x in rd["sigs"]]]
+    parsed = edprog.parse_files(files)
+    tname = edprog.role_file(files, "targets", cs)
+    sname = edprog.role_file(files, "snapshot", cs)
+    if not tname or not sname or "timestamp.json" not in files:
+        return None
+    dig = {}
+    def did(hexd):
+        return dig.setdefault(hexd, len(dig) + 1)
+    def fd(name):
+        raw = files[name].encode("utf-8")
+        return len(raw), did(hashlib.sha256(raw).hexdigest())
+    table = list(fd(tname)) + list(fd(sname)) + list(fd("timestamp.json"))
+    entries = sorted([[C.enc(k), len(v.encode()), did(hashlib.sha256(v.encode()).hexdigest())] for k, v in it.top.items()])
+    edit = [entries, it.versions[0], it.versions[1], it.versions[2], z_tree(86400 * 50), z_tree(86400 * 51), z_tree(86400 * 52)]
+    case = [10, 0, root_tree, edit, list(final_keys), table]
+    def sigs_of(doc):
+        out = []
+        for sg in doc["signatures"]:
+            if sg["keyid"] not in pool_ids:
+                return None
+            k = pool_ids.index(sg["keyid"])
+            out.append([k, k, 1])
+        return out
+    def metas_of(m):
+        return [[C.enc(k), [v["version"], [v["length"]] if "length" in v else [],
+                            [did(v["hashes"]["sha256"])] if "hashes" in v else []]] for k, v in sorted(m.items())]
+    t, sn, ts = parsed[tname], parsed[sname], parsed["timestamp.json"]
+    if t["signed"].get("delegations", {}).get("roles"):
+        return None
+    want = [1,
+            [t["signed"]["version"], z_tree(secs_of(t["signed"]["expires"]) - base),
+             sorted([[C.enc(k), v["length"], did(v["hashes"]["sha256"])] for k, v in t["signed"]["targets"].items()]),
+             sigs_of(t)],
+            [sn["signed"]["version"], z_tree(secs_of(sn["signed"]["expires"]) - base), metas_of(sn["signed"]["meta"]), sigs_of(sn)],
+            [ts["signed"]["version"], z_tree(secs_of(ts["signed"]["expires"]) - base), metas_of(ts["signed"]["meta"]), sigs_of(ts)],
+            sorted(C.enc(n) for n in (tname, sname, "timestamp.json"))]
+    return case, want
+
+
+def canon_ed(res):
+    """order-insensitive parts of the model's answer: entries, signature lists and file names as sorted lists"""
+    if not (isinstance(res, list) and res and res[0] == 1):
+        return res
+    tg, sn, ts, names = res[1], res[2], res[3], res[4]
+    return [1, [tg[0], tg[1], sorted(tg[2]), sorted(tg[3])], [sn[0], sn[1], sn[2], sorted(sn[3])],
+            [ts[0], ts[1], ts[2], sorted(ts[3])], sorted(names)]
+
+
 def run(chk):
     chk.rule = ("random editing programs through the real RepositoryEditor/TargetsEditor API: 0-6 top-level targets "
                 "(sizes 0-32 KiB, names with spaces, unicode, sub-directories), add/remove/clear, delegation chains to "
@@ -245,6 +314,24 @@ def run(chk):
             infos.append(("program", it, cs0, {"inadequate": None, "final_keys": [1, 2, 3], "reserved_role_name": nm}))
             cases.append({"p": 10, "docs": s.docs, "root": r, "program": prog})
             continue
+        if 8 <= i < 20:
+            # corpus: plain repositories (no delegated roles), both settings, adequate and inadequate key sets
+            cs0 = i % 2 == 0
+            fk = [[1, 2, 3], [1, 2, 3, 0], [3, 2, 1], [1, 2], [2, 3], [1, 3]][(i - 8) // 2]
+            it = Intent()
+            prog = [{"op": "new"}]
+            for k in range((i - 8) % 4):
+                nm = ["a.txt", "dir/b", "c d", "é"][k]
+                it.top[nm] = "content-%d-%d" % (i, k)
+                prog.append({"op": "add_target", "name": nm, "content": it.top[nm]})
+            it.versions = (i, 2 * i, 3 * i)
+            prog += [{"op": "versions", "targets": it.versions[0], "snapshot": it.versions[1], "timestamp": it.versions[2]},
+                     {"op": "expires", "targets": 86400 * 50, "snapshot": 86400 * 51, "timestamp": 86400 * 52},
+                     {"op": "sign_write", "keys": fk, "publish": "all", "link": False}, {"op": "load"}]
+            r = s.root(cs=cs0)
+            infos.append(("program", it, cs0, {"inadequate": None, "final_keys": fk}))
+            cases.append({"p": 10, "docs": s.docs, "root": r, "program": prog})
+            continue
         if rng.random() < 0.3:
             prog, info = cross_party(rng, i)
             r = s.root(cs=rng.random() < 0.5)
@@ -256,6 +343,8 @@ def run(chk):
         cases.append({"p": 10, "docs": s.docs, "root": r, "program": prog})
     # "@k" placeholders need the result of operation k: the interpreter resolves them
     out = C.run_impl(cases)
+    pool_ids = [C.b2s(e[0]) for e in C.run_impl([[12, 1]])[0]]
+    ed_cases = []        # (index, model case, abstraction of the written files)
     for (kind, it, cs, info), c, o in zip(infos, cases, out):
         chk.seen([kind, json.dumps(c["program"])[:2000]], True)
         chk.count(kind)
@@ -291,9 +380,22 @@ def run(chk):
             bad = next((k for k, r in enumerate(res[:sw + 1]) if r[0] != 0), None)
             if bad is not None:
                 chk.count("refused-at-%s%s" % (ops[bad], "-2nd" if "from_repo" in ops[:bad] else ""))
+            if kind == "program" and not it.roles and bad == sw and "from_repo" not in ops:
+                # the model's ed_sign must refuse too (SigningKeysNotFound)
+                rd = c["docs"][c["root"]]
+                code = {"root": 0, "snapshot": 1, "targets": 2, "timestamp": 3}
+                root_tree = [rd["version"], z_tree(rd["expires"]), 1 if rd["cs"] else 0, list(rd["keys"]),
+                             [[code[k], list(v[0]), v[1]] for k, v in sorted(rd["roles"].items(), key=lambda kv: code[kv[0]])],
+                             [list(x) for x in rd["sigs"]]]
+                edit = [[], it.versions[0], it.versions[1], it.versions[2], z_tree(1), z_tree(1), z_tree(1)]
+                ed_cases.append((full, [10, 0, root_tree, edit, list(info["final_keys"]), [0, 0, 0, 0, 0, 0]], None))
             continue
         load = res[-1]
         check_meta_exact(chk, o["final_files"], cs, full)
+        if kind == "program" and not it.roles and "base" in o:
+            ec = ed_sign_case(c["docs"], c["root"], it, info["final_keys"], o["final_files"], cs, o["base"], pool_ids)
+            if ec is not None:
+                ed_cases.append((full, ec[0], ec[1]))
         if load[0] != 0:
             chk.violation("the editor signed and wrote the repository without error, but the client refuses it: %s%s" % (
                 load, " (%s)" % info["inadequate"] if isinstance(info, dict) and info.get("inadequate") else ""), full)
@@ -332,6 +434,23 @@ def run(chk):
             got = {C.b2s(t[0]) for t in view["targets"]}
             if "a/two" not in got:
                 chk.violation("incorporated role metadata accepted but its new target is not visible", full)
+    # the Coq model of sign + write (Model/EditorRT.v ed_sign, the subject of C10_roundtrip_partial) against the
+    # files the editor wrote, for the programs without delegated roles
+    if ed_cases:
+        mres = C.run_model([e[1] for e in ed_cases])
+        for (full, case, want), mr in zip(ed_cases, mres):
+            chk.count("ed_sign-model-compared")
+            if want is None:
+                if mr != [0]:
+                    chk.broken("correspondence: RepositoryEditor::sign refused (inadequate keys) but the model's ed_sign "
+                               "signs", dict(full, model_case=case, model=mr))
+                continue
+            w = [want[0], [want[1][0], want[1][1], want[1][2], sorted(want[1][3] or [])],
+                 [want[2][0], want[2][1], want[2][2], sorted(want[2][3] or [])],
+                 [want[3][0], want[3][1], want[3][2], sorted(want[3][3] or [])], want[4]]
+            if canon_ed(mr) != w:
+                chk.broken("correspondence: model ed_sign differs from the files RepositoryEditor::sign + write produced",
+                           dict(full, model_case=case, model=canon_ed(mr), written=w))
     return chk
 
 
